@@ -57,8 +57,15 @@ def _guarded(fn):
     return wrapper
 
 
+_side = {}  # id(obj) -> (obj, input): fallback for classes that do not allow new attributes (__slots__)
+
+
 def _input(self):
     s = getattr(self, "_vmon_input", None)
+    if s is None:
+        ent = _side.get(id(self))
+        if ent is not None and ent[0] is self:
+            s = ent[1]
     return s if isinstance(s, str) else None
 
 
@@ -74,7 +81,9 @@ def post_init(self, vector):
     try:
         object.__setattr__(self, "_vmon_input", vector)
     except Exception:
-        pass
+        # __slots__ without __dict__: keep the object alive in a side table (a strong reference,
+        # so that its id can never be reused by another object)
+        _side[id(self)] = (self, vector)
     if _state["P"] is not None:
         _state["P"].ev("contract:__init__")
     return True
